@@ -1,1 +1,477 @@
-fn main() { eprintln!("HARNESS-ERROR monitor not built yet"); std::process::exit(3); }
+//! C12 — Enigma files and directories round-trip the mappings they can express.
+//!
+//! Real code: `quill::enigma_file::{write_all, write_one, read_into, read_file_into}`, `quill::enigma_dir::{write, read}`.
+//! Oracle: model equality after the R-enigma normalisation (DESIGN 9a), the monitor's own text scanner (census of classes
+//! per file, nesting of the text vs nesting of the source names, sortedness), byte equality across insertion orders.
+mod norm;
+mod scan;
+
+use common::{par::*, report::{finish, Meta}, *};
+use maps::gen::{self, CommentClass, GenCfg, ParamSrc};
+use maps::model::{from_quill, namespaces_to_quill, to_quill, Ins, Maps};
+use norm::*;
+use quill::tree::mappings::Mappings;
+use scan::{scan, split_inner, Scan};
+use std::collections::{BTreeMap, BTreeSet};
+use std::path::{Path, PathBuf};
+
+pub const SIG_ORPHAN: &str = "C12 roundtrip: orphan inner class (outer class absent from the set) is re-keyed to its simple name";
+
+type Q = Mappings<2, ()>;
+
+// ------------------------------------------------------------------------------------------------ generation
+
+#[derive(Clone, Copy, Debug, PartialEq, Eq)]
+enum Category { InDomain, Orphans, UnnamedParam, OutsideProviso }
+
+fn cfg() -> GenCfg {
+    GenCfg { namespaces: Some(2), comments: CommentClass::Rich, comment_chance: (2, 5), empty_comments: true, param_src: ParamSrc::Mixed,
+        max_classes: 7, max_fields: 3, max_methods: 3, max_params: 3, big: (1, 60), orphan: (1, 4), target_dollar: false, unique_per_namespace: true, ..GenCfg::default() }
+}
+
+/// One generated set and the category it was shaped into.
+fn gen_set(rng: &mut Rng) -> (Maps, Category) {
+    let cfg = cfg();
+    let mut m = gen::gen_maps(rng, &cfg);
+    // packages at depth 0-4: push one family of classes deeper now and then
+    if rng.chance(1, 4) {
+        let tops: Vec<String> = m.classes.keys().filter(|k| split_inner(k).is_none()).cloned().collect();
+        if !tops.is_empty() {
+            let t = rng.pick(&tops).clone();
+            let want = rng.usize_in(1, 4);
+            let mut name = t.clone();
+            while package_depth(&name) < want { name = format!("{}/{name}", rng.pick(&["p", "q", "deep", "ü"])); }
+            if !m.classes.contains_key(&name) { rename_family(&mut m, &t, &name); }
+        }
+    }
+    let which = rng.below(20);
+    // proviso (except for the small "outside" category, which is only watched for panics)
+    if which != 0 {
+        let mut r2 = rng.fork();
+        repair_to_proviso(&mut m, &mut || gen::simple_name(&mut r2, &cfg));
+        // target directories at depth up to 4
+        if rng.chance(1, 5) {
+            let tops: Vec<String> = m.classes.keys().filter(|k| parent_in_set(&m, k).is_none() && !is_orphan(&m, k)).cloned().collect();
+            if let Some(t) = tops.first().cloned() {
+                if let Some(old) = m.classes[&t].names[1].clone() {
+                    let new = format!("{}{}", rng.pick(&["d0/", "d0/d1/d2/", "d0/d1/d2/d3/"]), old.rsplit('/').next().unwrap_or(&old));
+                    if !m.classes.values().any(|c| c.names[1].as_deref() == Some(new.as_str())) {
+                        m.classes.get_mut(&t).unwrap().names[1] = Some(new);
+                        let mut r3 = rng.fork();
+                        repair_to_proviso(&mut m, &mut || gen::simple_name(&mut r3, &cfg));
+                    }
+                }
+            }
+        }
+    }
+    // parameters without target name: only in their own category
+    if which != 1 { for c in m.classes.values_mut() { for me in c.methods.values_mut() { for (i, p) in me.params.iter_mut() { if p.names[1].is_none() { p.names[1] = Some(format!("arg{i}")); } } } } }
+    // orphans: only in their own category (3 of 20)
+    if !(2..=4).contains(&which) { remove_orphans(&mut m); if which != 0 { let mut r4 = rng.fork(); repair_to_proviso(&mut m, &mut || gen::simple_name(&mut r4, &cfg)); } }
+    let cat = if which == 0 && outside_domain(&m).is_some_and(|r| r.starts_with("proviso")) { Category::OutsideProviso }
+        else if has_unnamed_param(&m) { Category::UnnamedParam }
+        else if m.classes.keys().any(|k| is_orphan(&m, k)) { Category::Orphans }
+        else { Category::InDomain };
+    (m, cat)
+}
+
+// ------------------------------------------------------------------------------------------------ real code wrappers
+
+fn write_all(q: &Q) -> Result<anyhow::Result<Vec<u8>>, PanicInfo> { guard(|| { let mut v = vec![]; quill::enigma_file::write_all(q, &mut v)?; Ok(v) }) }
+fn write_one(q: &Q, file: &str) -> Result<anyhow::Result<Vec<u8>>, PanicInfo> { guard(|| { let mut v = vec![]; quill::enigma_file::write_one(q, file, &mut v)?; Ok(v) }) }
+fn fresh(m: &Maps) -> anyhow::Result<Q> { Ok(Mappings { info: quill::tree::mappings::MappingInfo { namespaces: namespaces_to_quill::<2, ()>(m)? }, classes: Default::default(), javadoc: None }) }
+fn read_texts(m: &Maps, texts: &[&[u8]]) -> Result<anyhow::Result<Q>, PanicInfo> {
+    guard(|| { let mut q = fresh(m)?; for t in texts { quill::enigma_file::read_into(*t, &mut q)?; } Ok(q) })
+}
+
+fn settle<T>(rep: &mut Report, api: &str, what_err: &str, detail: &dyn Fn() -> Value, r: Result<anyhow::Result<T>, PanicInfo>) -> Option<T> {
+    match r {
+        Ok(Ok(v)) => Some(v),
+        Ok(Err(e)) => { rep.violation(format!("C12 {api}: {what_err}"), json!({"error": format!("{e:#}"), "input": detail()})); None }
+        Err(p) => { rep.violation(format!("panic {}", p.site()), json!({"api": api, "line": p.line, "message": p.message, "input": detail()})); None }
+    }
+}
+
+// ------------------------------------------------------------------------------------------------ judging
+
+fn comment_kind(expected: &str) -> &'static str {
+    if expected.lines().any(|l| l.trim_start().starts_with('#')) { "a line starts with #" }
+    else if expected.contains('#') { "contains #" }
+    else if expected.contains("\n\n") || expected.starts_with('\n') || expected.ends_with('\n') || expected.is_empty() { "blank line" }
+    else if expected.split('\n').any(|l| l.starts_with(' ')) { "line with leading space" }
+    else if expected.split('\n').any(|l| l.ends_with(' ')) { "line with trailing space" }
+    else if expected.contains('\n') { "several lines" }
+    else { "one line" }
+}
+
+/// Compares an observed set with the expectation; records one violation per difference kind. Returns true when equal.
+fn judge_equal(rep: &mut Report, via: &str, expected: &Maps, observed: &Maps, detail: &dyn Fn() -> Value) -> bool {
+    let d = maps::cmp::diff_maps(expected, observed);
+    if d.is_empty() { return true; }
+    let mut done: BTreeSet<String> = BTreeSet::new();
+    for (kind, at) in &d {
+        let mut sig = format!("C12 roundtrip: {kind}");
+        if kind.contains("comment differs") || kind.contains("comment lost") {
+            // refine by the class of the expected comment
+            if let Some(exp) = at.split("expected ").nth(1) {
+                let text: String = exp.split("\" observed").next().unwrap_or(exp).trim_matches('"').replace("\\n", "\n");
+                sig = format!("{sig} ({})", comment_kind(&text));
+            }
+        }
+        if done.insert(sig.clone()) { rep.violation(sig, json!({"via": via, "where": at, "expected": expected.render(), "observed": observed.render(), "input": detail()})); }
+    }
+    false
+}
+
+/// expected placement of the classes of `m`: file-level classes (with their file name) and the text parent of each class
+fn placement(m: &Maps) -> (BTreeMap<String, String>, BTreeMap<String, Option<String>>) {
+    let mut files = BTreeMap::new();
+    let mut parents = BTreeMap::new();
+    for src in m.classes.keys() {
+        match parent_in_set(m, src) {
+            Some(p) => { parents.insert(src.clone(), Some(p.to_string())); }
+            None => { parents.insert(src.clone(), None); files.insert(base(m, src), src.clone()); }
+        }
+    }
+    (files, parents)
+}
+
+/// Census + nesting + sortedness of a set of texts (`name -> text`; one text per file, or one stream).
+/// Returns false if anything was reported.
+#[allow(clippy::too_many_arguments)]
+fn judge_texts(rep: &mut Report, via: &str, m: &Maps, texts: &BTreeMap<String, String>, one_class_per_file: bool, has_orphans: bool, detail: &dyn Fn() -> Value) -> bool {
+    let mut ok = true;
+    let (_, parents) = placement(m);
+    let mut seen_in: BTreeMap<String, Vec<String>> = BTreeMap::new();
+    let (mut fields, mut methods, mut args, mut comments) = (0, 0, 0, 0);
+    let v = |rep: &mut Report, sig: String, extra: Value| { rep.violation(sig, json!({"via": via, "what": extra, "texts": texts, "set": m.render(), "input": detail()})); };
+    let scans: Vec<(&String, Scan)> = texts.iter().map(|(f, t)| (f, scan(t))).collect();
+    // orphan category: are the class names of the text exactly those the suspected re-keying predicts (and not the source names)?
+    let mut rekeyed_census = false;
+    if has_orphans {
+        let mut in_text: Vec<String> = scans.iter().flat_map(|(_, s)| s.classes.iter().map(|c| c.full_src.clone())).collect();
+        in_text.sort();
+        let src: Vec<String> = m.classes.keys().cloned().collect();
+        if in_text != src && in_text == rekeyed_names(m) {
+            rekeyed_census = true;
+            ok = false;
+            rep.count("orphan.census_shows_rekeyed_names");
+            let orphan = m.classes.keys().find(|k| is_orphan(m, k)).cloned();
+            rep.violation(SIG_ORPHAN, json!({"via": format!("{via} (census: the text holds the family of the orphan under its simple name, the source name appears in no file)"), "orphan": orphan, "texts": texts, "set": m.render()}));
+        }
+    }
+    for (file, s) in &scans {
+        let file = *file;
+        if !s.problems.is_empty() { ok = false; v(rep, "C12 text: written text is not well-formed Enigma (indentation / tags)".into(), json!({"file": file, "problems": s.problems})); }
+        let u = s.unsorted();
+        if !u.is_empty() { ok = false; v(rep, "C12 text: output is not sorted (siblings out of order)".into(), json!({"file": file, "unsorted": u})); }
+        if one_class_per_file && s.classes.iter().filter(|c| c.depth == 0).count() != 1 { ok = false; v(rep, "C12 census: a file does not hold exactly one top-level class".into(), json!({"file": file})); }
+        if rekeyed_census { fields += s.fields; methods += s.methods; args += s.args; comments += s.comment_lines; continue; }
+        for c in &s.classes {
+            seen_in.entry(c.full_src.clone()).or_default().push(file.clone());
+            // nesting in the text mirrors source-name nesting
+            match parents.get(&c.full_src) {
+                Some(exp) => if *exp != c.parent {
+                    ok = false;
+                    v(rep, "C12 nesting: nesting in the text differs from source-name nesting".into(), json!({"file": file, "class": c.full_src, "text_parent": c.parent, "source_parent": exp}));
+                },
+                None => { ok = false; v(rep, "C12 census: the text holds a class the set does not have".into(), json!({"file": file, "class": c.full_src})); }
+            }
+        }
+        fields += s.fields; methods += s.methods; args += s.args; comments += s.comment_lines;
+    }
+    if !rekeyed_census {
+        for src in m.classes.keys() {
+            let n = seen_in.get(src).map(|f| f.len()).unwrap_or(0);
+            if n == 1 { continue; }
+            ok = false;
+            v(rep, format!("C12 census: a class appears in {} files", if n == 0 { "zero" } else { "two or more" }), json!({"class": src, "files": seen_in.get(src)}));
+        }
+    }
+    // members: totals of the text equal totals of the set
+    let (_, f, me, p) = m.counts();
+    let mut cl = 0; m.visit(|_, _, c| if let Some(c) = c { cl += c.split('\n').count(); });
+    if (fields, methods, args, comments) != (f, me, p, cl) {
+        ok = false;
+        v(rep, "C12 census: number of FIELD / METHOD / ARG / COMMENT lines differs from the set".into(), json!({"text": [fields, methods, args, comments], "set": [f, me, p, cl]}));
+    }
+    ok
+}
+
+// ------------------------------------------------------------------------------------------------ directory helpers
+
+fn list_files(root: &Path) -> std::io::Result<BTreeMap<String, Vec<u8>>> {
+    fn rec(root: &Path, dir: &Path, out: &mut BTreeMap<String, Vec<u8>>) -> std::io::Result<()> {
+        for e in std::fs::read_dir(dir)? {
+            let e = e?;
+            let p = e.path();
+            if e.file_type()?.is_dir() { rec(root, &p, out)?; } else { out.insert(p.strip_prefix(root).unwrap_or(&p).to_string_lossy().into_owned(), std::fs::read(&p)?); }
+        }
+        Ok(())
+    }
+    let mut out = BTreeMap::new();
+    if root.exists() { rec(root, root, &mut out)?; }
+    Ok(out)
+}
+
+struct Scratch { root: PathBuf }
+impl Scratch {
+    fn new(ctx: &Ctx) -> Scratch { let root = PathBuf::from(format!("{}/scratch/c12-{}", ctx.out_dir, std::process::id())); let _ = std::fs::remove_dir_all(&root); Scratch { root } }
+    fn dir(&self, case: u64, k: usize) -> PathBuf { self.root.join(format!("{case}-{k}")) }
+}
+impl Drop for Scratch { fn drop(&mut self) { let _ = std::fs::remove_dir_all(&self.root); } }
+
+// ------------------------------------------------------------------------------------------------ one case
+
+struct Wrong { expectation: bool }
+
+/// `dir`: Some(directory for this case) => also the directory format. `wrong`: canary switch (deliberately wrong expectation).
+fn one_case(rng: &mut Rng, rep: &mut Report, case: u64, scratch: Option<&Scratch>, wrong: &Wrong) {
+    let (m, cat) = gen_set(rng);
+    rep.eval();
+    rep.count(&format!("category.{cat:?}"));
+    let detail = || json!({"set": m.render(), "category": format!("{cat:?}")});
+    // ---- build the quill tree in k insertion orders
+    let mut r2 = rng.fork();
+    let mut qs: Vec<Q> = vec![];
+    for which in 0..3 {
+        let mut ins = match which { 0 => Ins::Sorted, 1 => Ins::Reverse, _ => Ins::Shuffle(&mut r2) };
+        match to_quill::<2, ()>(&m, &mut ins) { Ok(q) => qs.push(q), Err(e) => { rep.count("harness.to_quill_failed"); rep.note(format!("to_quill failed: {e:#}")); return; } }
+    }
+    maps::watch(rep, "C12", "to_quill (input)", &qs[0], detail);
+
+    match cat {
+        Category::OutsideProviso => {
+            // not judged; only watched for panics
+            for q in &qs { if let Err(p) = write_all(q) { rep.violation(format!("panic {}", p.site()), json!({"api": "write_all", "message": p.message, "input": detail()})); } }
+            rep.count("not_judged.outside_proviso");
+            return;
+        }
+        Category::UnnamedParam => {
+            match write_all(&qs[0]) {
+                Ok(Err(_)) => rep.count("unnamed_param.write_refused (accepted)"),
+                Ok(Ok(_)) => rep.count("unnamed_param.write_succeeded (not judged)"),
+                Err(p) => rep.violation(format!("panic {}", p.site()), json!({"api": "write_all", "message": p.message, "input": detail()})),
+            }
+            return;
+        }
+        _ => {}
+    }
+    if let Some(reason) = outside_domain(&m) { rep.count(&format!("not_judged.{}", reason.split(':').next().unwrap_or(reason))); rep.count("not_judged.total"); return; }
+    let has_orphans = cat == Category::Orphans;
+    // ---- coverage of the workload
+    let mut max_depth_pkg = 0;
+    for (src, c) in &m.classes {
+        max_depth_pkg = max_depth_pkg.max(package_depth(src)).max(c.names[1].as_deref().map(package_depth).unwrap_or(0));
+        if c.names[1].is_none() { rep.count("class.without_target_name"); }
+        if parent_in_set(&m, src).is_some() { rep.count("class.nested_with_parent_in_set"); if c.names[1].is_none() { rep.count("class.nested_without_target_name"); } }
+        if is_orphan(&m, src) { rep.count("class.orphan"); }
+        rep.max("max.nesting_depth", src.matches('$').count() as u64);
+        for me in c.methods.values() {
+            if me.names[1].as_deref() == Some("<init>") { rep.count("method.target_name_is_init"); }
+            for p in me.params.values() { if p.comment.is_some() { rep.count("parameter.with_comment"); } if p.names[0].is_some() { rep.count("parameter.with_source_name"); } }
+        }
+    }
+    rep.count(&format!("package_depth.{}", max_depth_pkg.min(5)));
+    m.visit(|_, _, c| if let Some(c) = c { rep.count(&format!("comment.{}", comment_kind(c))); });
+
+    let expected = if wrong.expectation { let mut e = norm(&m); if let Some(c) = e.classes.values_mut().next() { c.comment = Some("canary: deliberately wrong expectation".into()); } e } else { norm(&m) };
+    let (files, _) = placement(&m);
+
+    // ---- 1. single stream, k insertion orders
+    let mut texts: Vec<Vec<u8>> = vec![];
+    for q in &qs { match settle(rep, "write_all", "Err on a set inside the domain", &detail, write_all(q)) { Some(t) => texts.push(t), None => return } }
+    if texts.iter().any(|t| *t != texts[0]) {
+        rep.violation("C12 determinism: write_all output differs between insertion orders", json!({"a": String::from_utf8_lossy(&texts[0]), "b": String::from_utf8_lossy(texts.iter().find(|t| **t != texts[0]).unwrap()), "input": detail()}));
+    }
+    rep.count("stream.writes");
+    let text = String::from_utf8_lossy(&texts[0]).into_owned();
+    let mut equal = true;
+    let judge_rt = |rep: &mut Report, via: &str, r: Result<anyhow::Result<Q>, PanicInfo>| -> bool {
+        // orphan category: classify by the suspected re-keying first
+        if has_orphans {
+            let rk = rekeyed_orphans(&expected);
+            match (&r, &rk) {
+                (Ok(Ok(q)), Some(rk)) if from_quill(q) == *rk && *rk != expected => {
+                    rep.count("orphan.rekeyed_as_suspected");
+                    rep.violation(SIG_ORPHAN, json!({"via": via, "expected": expected.render(), "observed": rk.render(), "text": text}));
+                    return false;
+                }
+                (Ok(Err(e)), None) => {
+                    rep.count("orphan.rekeyed_name_collides_reader_refuses");
+                    rep.violation(SIG_ORPHAN, json!({"via": format!("{via} (the re-keyed name collides with another class: reader refuses)"), "error": format!("{e:#}"), "expected": expected.render(), "text": text}));
+                    return false;
+                }
+                _ => {}
+            }
+        }
+        let Some(q) = settle(rep, via, "reader rejects what the writer produced for a set inside the domain", &|| json!({"text": text, "set": m.render()}), r) else { return false };
+        maps::watch(rep, "C12", via, &q, &detail);
+        judge_equal(rep, via, &expected, &from_quill(&q), &|| json!({"text": text}))
+    };
+    equal &= judge_rt(rep, "read_into(write_all)", read_texts(&m, &[&texts[0]]));
+    let mut one_text: BTreeMap<String, String> = BTreeMap::new();
+    one_text.insert("<stream>".into(), text.clone());
+    equal &= judge_texts(rep, "write_all", &m, &one_text, false, has_orphans, &detail);
+    // the stream lists the files in ascending order, each announced by a remark
+    let headers: Vec<&str> = text.split('\n').filter_map(|l| l.strip_prefix("# ")).collect();
+    if headers != files.keys().map(|s| s.as_str()).collect::<Vec<_>>() {
+        rep.violation("C12 text: write_all does not announce exactly the file-level classes in ascending order", json!({"headers": headers, "expected": files.keys().collect::<Vec<_>>(), "text": text, "input": detail()}));
+    }
+
+    // ---- 2. write_one per file-level class
+    let mut pieces: BTreeMap<String, String> = BTreeMap::new();
+    for f in files.keys() {
+        let Some(t) = settle(rep, "write_one", "Err for a file-level class of a set inside the domain", &|| json!({"file": f, "set": m.render()}), write_one(&qs[2], f)) else { return };
+        pieces.insert(f.clone(), String::from_utf8_lossy(&t).into_owned());
+    }
+    rep.add("write_one.calls", files.len() as u64);
+    let concat: String = pieces.iter().map(|(f, t)| format!("#\n# {f}\n{t}")).collect();
+    if concat != text { rep.violation("C12 determinism: write_one pieces differ from the corresponding part of write_all", json!({"write_all": text, "write_one": pieces, "input": detail()})); }
+    let byte_pieces: Vec<&[u8]> = pieces.values().map(|s| s.as_bytes()).collect();
+    equal &= judge_rt(rep, "read_into(write_one ...)", read_texts(&m, &byte_pieces));
+    // nested class: write_one must refuse (it is not a file of its own)
+    if let Some(nested) = m.classes.keys().find(|k| parent_in_set(&m, k).is_some()) {
+        let b = base(&m, nested);
+        if !files.contains_key(&b) { if let Ok(Ok(_)) = write_one(&qs[0], &b) { rep.count("write_one.accepts_nested_class (not judged)"); } }
+    }
+
+    // ---- 3. directory
+    if let Some(sc) = scratch {
+        let mut listings: Vec<BTreeMap<String, Vec<u8>>> = vec![];
+        for (k, q) in qs.iter().enumerate() {
+            let dir = sc.dir(case, k);
+            // the caller provides an existing directory (an empty set writes no file, hence creates nothing)
+            if let Err(e) = std::fs::create_dir_all(&dir) { rep.note(format!("cannot create scratch directory: {e}")); rep.count("harness.scratch_io"); return; }
+            let r = guard(|| quill::enigma_dir::write(q, &dir));
+            if settle(rep, "enigma_dir::write", "Err on a set inside the domain", &detail, r).is_none() { let _ = std::fs::remove_dir_all(&dir); return; }
+            match list_files(&dir) { Ok(l) => listings.push(l), Err(e) => { rep.note(format!("cannot list scratch directory: {e}")); rep.count("harness.scratch_io"); return; } }
+        }
+        rep.count("directory.writes");
+        if listings.iter().any(|l| *l != listings[0]) { rep.violation("C12 determinism: directory content differs between insertion orders", json!({"input": detail()})); }
+        let file_texts: BTreeMap<String, String> = listings[0].iter().map(|(f, b)| (f.clone(), String::from_utf8_lossy(b).into_owned())).collect();
+        rep.max("max.files_in_directory", file_texts.len() as u64);
+        rep.max("max.directory_depth", file_texts.keys().map(|f| f.matches('/').count()).max().unwrap_or(0) as u64);
+        equal &= judge_texts(rep, "enigma_dir::write", &m, &file_texts, true, has_orphans, &detail);
+        // file names: one file per file-level class, named after it
+        let expected_files: BTreeSet<String> = files.keys().map(|f| format!("{f}.mapping")).collect();
+        let got_files: BTreeSet<String> = file_texts.keys().cloned().collect();
+        if expected_files != got_files { rep.violation("C12 census: files of the directory are not one `<name>.mapping` per file-level class", json!({"expected": expected_files, "observed": got_files, "input": detail()})); }
+        else { for (f, t) in &pieces { if file_texts.get(&format!("{f}.mapping")) != Some(t) { rep.violation("C12 determinism: file content differs from write_one", json!({"file": f, "input": detail()})); break; } } }
+        // read back (from the directory written in shuffled order)
+        let dir = sc.dir(case, 2);
+        let r = guard(|| -> anyhow::Result<Q> { quill::enigma_dir::read::<()>(&dir, namespaces_to_quill::<2, ()>(&m)?) });
+        equal &= judge_rt(rep, "enigma_dir::read(enigma_dir::write)", r);
+        // a single file through read_file_into
+        if let Some((f, _)) = file_texts.iter().next() {
+            let p = dir.join(f);
+            let r = guard(|| -> anyhow::Result<Q> { let mut q = fresh(&m)?; quill::enigma_file::read_file_into(&p, &mut q)?; Ok(q) });
+            if let Some(q) = settle(rep, "read_file_into", "rejects a file the directory writer produced", &detail, r) {
+                let got = from_quill(&q);
+                let r2 = read_texts(&m, &[file_texts[f].as_bytes()]);
+                if let Ok(Ok(q2)) = r2 { if from_quill(&q2) != got { rep.violation("C12 roundtrip: read_file_into differs from read_into on the same text", json!({"file": f, "input": detail()})); } }
+            }
+        }
+        for k in 0..3 { let _ = std::fs::remove_dir_all(sc.dir(case, k)); }
+    }
+
+    // ---- bookkeeping
+    let nontrivial = m.classes.len() >= 2 && (m.classes.keys().any(|k| parent_in_set(&m, k).is_some()) || m.n_comments() > 0);
+    if nontrivial { rep.nontrivial(rng::fnv_str(&format!("{:x}|{cat:?}|{}", m.shape_fingerprint(), scratch.is_some()))); }
+    if equal && has_orphans { rep.count("orphan.roundtrip_equal"); }
+    if rep.want_sample() && nontrivial && m.classes.len() <= 5 { rep.sample(|| json!({"set": m.render(), "category": format!("{cat:?}"), "enigma_text": text})); }
+}
+
+// ------------------------------------------------------------------------------------------------ self checks
+
+fn self_checks(seed: u64) -> Result<(), String> {
+    maps::self_test(seed, 30)?;
+    use maps::model::{Class, Method, Param};
+    // normalisation / prediction on the DESIGN example: A$B -> x/Y$Z, outer class absent
+    let mut m = Maps::new(&["a", "b"]);
+    m.classes.insert("A$B".into(), Class { names: row2("A$B", Some("x/Y$Z")), ..Default::default() });
+    m.classes.insert("A$B$C".into(), Class { names: row2("A$B$C", Some("x/Y$Z$W")), ..Default::default() });
+    m.classes.insert("T".into(), Class { names: row2("T", None), ..Default::default() });
+    m.classes.insert("T$I".into(), Class { names: row2("T$I", Some("T$J")), ..Default::default() });
+    let mut me = Method { names: row2("<init>", Some("<init>")), ..Default::default() };
+    me.params.insert(1, Param { names: row2("src", Some("dst")), comment: None });
+    m.classes.get_mut("T").unwrap().methods.insert(("<init>".into(), "(I)V".into()), me);
+    if outside_domain(&m).is_some() { return Err(format!("domain predicate rejects the reference example: {:?}", outside_domain(&m))); }
+    if !is_orphan(&m, "A$B") || is_orphan(&m, "A$B$C") || !under_orphan(&m, "A$B$C") || is_orphan(&m, "T$I") { return Err("orphan predicate".into()); }
+    let n = norm(&m);
+    if norm(&n) != n { return Err("norm is not idempotent".into()); }
+    let nm = &n.classes["T"].methods[&("<init>".to_string(), "(I)V".to_string())];
+    if nm.names[1].is_some() || nm.params[&1].names[0].is_some() || nm.params[&1].names[1].as_deref() != Some("dst") { return Err("norm: <init> / parameter source name".into()); }
+    let rk = rekeyed_orphans(&n).ok_or("rekeyed_orphans: unexpected collision")?;
+    if !rk.classes.contains_key("B") || rk.classes["B"].names[1].as_deref() != Some("Z") || rk.classes.get("B$C").map(|c| c.names[1].clone()) != Some(Some("Z$W".into())) || !rk.classes.contains_key("T$I") {
+        return Err(format!("rekeyed_orphans does not reproduce the DESIGN example:\n{}", rk.render()));
+    }
+    let mut bad = m.clone();
+    bad.classes.get_mut("T$I").unwrap().names[1] = Some("Other$J".into());
+    if outside_domain(&bad).is_none() { return Err("domain predicate accepts a nested target name that does not follow the nesting".into()); }
+    // scanner canaries: mis-nested and unsorted texts must be flagged by judge_texts
+    {
+        let mut m2 = Maps::new(&["a", "b"]);
+        m2.classes.insert("A".into(), Class { names: row2("A", Some("X")), ..Default::default() });
+        m2.classes.insert("A$B".into(), Class { names: row2("A$B", Some("X$Y")), ..Default::default() });
+        m2.classes.insert("C".into(), Class { names: row2("C", None), ..Default::default() });
+        let good = "CLASS C\nCLASS A X\n\tCLASS B Y\n";
+        for (text, must_flag, what) in [(good, false, "a correct text"), ("CLASS C\n\tCLASS B Y\nCLASS A X\n", true, "B nested in C instead of A"), ("CLASS C\nCLASS A X\n", true, "A$B in no file"),
+            ("CLASS C\nCLASS A X\n\tCLASS B Y\nCLASS A X\n", true, "A twice"), ("CLASS C\nCLASS A X\n\tCLASS B Y\n\tFIELD f I\n", true, "a FIELD the set does not have")] {
+            let mut rep = Report::new();
+            let mut t = BTreeMap::new(); t.insert("<stream>".to_string(), text.to_string());
+            let ok = judge_texts(&mut rep, "canary", &m2, &t, false, false, &|| json!(null));
+            if ok == must_flag || rep.violations.is_empty() != !must_flag { return Err(format!("canary: text scanner verdict wrong for {what}")); }
+        }
+        let mut rep = Report::new();
+        let mut wrong = norm(&m2); wrong.classes.get_mut("A").unwrap().names[1] = Some("Wrong".into());
+        if judge_equal(&mut rep, "canary", &wrong, &norm(&m2), &|| json!(null)) || rep.violations.is_empty() { return Err("canary: a deliberately wrong expectation was not flagged by judge_equal".into()); }
+    }
+    // end-to-end canary: the whole case runner with a deliberately wrong expectation must report
+    let mut flagged = false;
+    for i in 0..40 {
+        let mut rng = Rng::new(rng::case_seed(seed, "C12/canary", i));
+        let mut rep = Report::new();
+        one_case(&mut rng, &mut rep, i, None, &Wrong { expectation: true });
+        if rep.violations.keys().any(|s| s.starts_with("C12 roundtrip: class: comment")) { flagged = true; break; }
+    }
+    if !flagged { return Err("canary: runs with a deliberately wrong expectation were not flagged".into()); }
+    Ok(())
+}
+
+// ------------------------------------------------------------------------------------------------ main
+
+fn main() {
+    let mut ctx = Ctx::from_args("C12", 35, 420);
+    let replay = load_replay(&mut ctx);
+    if let Err(e) = self_checks(ctx.seed) { println!("HARNESS-ERROR C12 self-check failed: {e}"); std::process::exit(3); }
+    let mut rep = Report::new();
+    let right = Wrong { expectation: false };
+    run_cases(&ctx, &replay, &mut rep, "stream", ctx.tier.pick(8_000, 200_000), |rng, rep, case| one_case(rng, rep, case, None, &right));
+    {
+        let scratch = Scratch::new(&ctx);
+        run_cases(&ctx, &replay, &mut rep, "directory", ctx.tier.pick(800, 10_000), |rng, rep, case| one_case(rng, rep, case, Some(&scratch), &right));
+        if scratch.root.exists() { let left = list_files(&scratch.root).map(|l| l.len()).unwrap_or(0); if left > 0 { rep.note(format!("{left} scratch files were left behind and removed at exit")); } }
+    }
+    let mut meta = Meta::new("exploration",
+        "a case = one generated two-namespace mapping set (maps::gen, shaped into the stated domain: nested target names follow the nesting; categories: in-domain 15/20, orphan inner classes 3/20, parameter without target name 1/20, outside the proviso 1/20) written in 3 insertion orders through write_all, write_one per file and (workload `directory`) enigma_dir::write, read back through read_into / enigma_dir::read / read_file_into; \
+         non-trivial = at least two classes and (a nested class with its parent in the set or a comment); distinct = structural fingerprint of the set (shape, name classes, comment classes) x category x format")
+        .assume("names contain no white space and no `#`; comments contain no TAB / CR / VT / FF (the text format cannot carry them)")
+        .assume("target names (file names) of file-level classes are pairwise distinct and differ from the source names of classes without target name; sets violating that are counted, not judged")
+        .assume("equality after R-enigma: parameter source names erased, a method target name `<init>` erased; `simple` part of a nested target name has no `$` and no `/`")
+        .assume("sets with a parameter without target name: a refusal of the writer is accepted; sets outside the proviso are only watched for panics");
+    if replay.is_none() {
+        meta.oblige("orphan inner classes generated (separately counted category)", rep.get("category.Orphans") > 0 && rep.get("class.orphan") > 0);
+        meta.oblige("classes without target name, also nested ones", rep.get("class.without_target_name") > 0 && rep.get("class.nested_without_target_name") > 0);
+        meta.oblige("parameters with comments and with source names", rep.get("parameter.with_comment") > 0 && rep.get("parameter.with_source_name") > 0);
+        meta.oblige("comments with blank lines, leading spaces, # characters (at line start and inside)", ["comment.blank line", "comment.line with leading space", "comment.contains #", "comment.a line starts with #"].iter().all(|k| rep.get(k) > 0));
+        meta.oblige("packages at depth 0, 1, 2, 3 and 4", (0..=4).all(|d| rep.get(&format!("package_depth.{d}")) > 0));
+        meta.oblige("nesting depth >= 3", rep.get("max.nesting_depth") >= 3);
+        meta.oblige("constructors named <init> in the target namespace", rep.get("method.target_name_is_init") > 0);
+        meta.oblige("directories with >= 5 files and depth >= 3", rep.get("max.files_in_directory") >= 5 && rep.get("max.directory_depth") >= 3);
+        meta.oblige("stream, write_one and directory formats all exercised", rep.get("stream.writes") > 0 && rep.get("write_one.calls") > 0 && rep.get("directory.writes") > 0);
+        meta.oblige("at most 10% of the cases fall outside the judged domain by accident", rep.get("not_judged.total") * 10 <= rep.evaluations);
+        meta.oblige("no harness conversion / scratch I/O failure", rep.get("harness.to_quill_failed") + rep.get("harness.scratch_io") == 0);
+    }
+    std::process::exit(finish(&ctx, rep, meta));
+}
